@@ -289,6 +289,7 @@ func (c *Conn) waitGoroutines() error {
 	// The connection may have been closed by a goroutine of its own (a lock wait whose context
 	// expired, see mu.lock): it is done with the connection when it has released closeMu.
 	c.closeMu.Lock()
+	c.vEv("WgCloseMu", 0, 0, 0, 0)
 	c.closeMu.Unlock()
 
 	return nil
